@@ -427,7 +427,10 @@ func runE2E(r *ev.Run, cov ev.Coverage) {
 			}
 			return d
 		}
-		sigBase := fmt.Sprintf("C05/e2e/%s/%s", opNames[c.op], c.t.name)
+		// per operator and executor; the key type is in the detail (a partitioning
+		// bug hits every key type alike)
+		sigBase := fmt.Sprintf("C05/e2e/%s", opNames[c.op])
+		ex := c.execName() + "/"
 		// expected distinct keys (canonical) and how many raw keys map to each
 		ki, vals := e2eRows(c.t.ad.nkeys(), c.layout, false)
 		wantKeys := map[string]int{}
@@ -467,7 +470,7 @@ func runE2E(r *ev.Run, cov ev.Coverage) {
 		for _, x := range rows {
 			usedShards.Add(fmt.Sprintf("%d/%d", x.shard, nout))
 			if x.shard < 0 || x.shard >= nout {
-				r.Violate(sigBase+"/shard-out-of-range", fmt.Sprintf("%v: row observed in shard %d of %d", c, x.shard, nout), detail())
+				r.Violate(sigBase+"/"+ex+"shard-out-of-range", fmt.Sprintf("%v: row observed in shard %d of %d", c, x.shard, nout), detail())
 			}
 		}
 		byKey := map[string][]rec{}
@@ -480,13 +483,13 @@ func runE2E(r *ev.Run, cov ev.Coverage) {
 			for _, x := range rows {
 				seen[x.val]++
 				if want := partFn(c.variant, nout, x.val); x.shard != want {
-					r.Violate(sigBase+"/row-not-in-the-shard-the-function-returned",
+					r.Violate(sigBase+"/"+ex+"row-not-in-the-shard-the-function-returned",
 						fmt.Sprintf("%v: row %d (key %q) is in shard %d, the partition function returned %d", c, x.val, x.key, x.shard, want), detail())
 				}
 			}
 			for _, v := range vals {
 				if seen[v] != 1 {
-					r.Violate(sigBase+"/row-not-exactly-once", fmt.Sprintf("%v: input row %d observed %d times after Repartition", c, v, seen[v]), detail())
+					r.Violate(sigBase+"/"+ex+"row-not-exactly-once", fmt.Sprintf("%v: input row %d observed %d times after Repartition", c, v, seen[v]), detail())
 				}
 			}
 			outcomes.Add(fmt.Sprintf("repartition:%d:%d", c.variant, nout))
@@ -510,7 +513,7 @@ func runE2E(r *ev.Run, cov ev.Coverage) {
 				multi = true
 			}
 			if len(shards) > 1 {
-				r.Violate(sig(k, "equal-keys-in-several-shards"),
+				r.Violate(sig(k, ex+"equal-keys-in-several-shards"),
 					fmt.Sprintf("%v: rows with key %q are in %d different output shards", c, k, len(shards)), detail("key", k))
 				continue
 			}
@@ -535,7 +538,7 @@ func runE2E(r *ev.Run, cov ev.Coverage) {
 			}
 			if c.op == opReduce || c.op == opFold || c.op == opCogroup {
 				if len(xs) != 1 {
-					r.Violate(sig(k, "key-emitted-more-than-once"),
+					r.Violate(sig(k, ex+"key-emitted-more-than-once"),
 						fmt.Sprintf("%v: key %q is emitted %d times in the whole result", c, k, len(xs)), detail("key", k))
 				}
 			}
@@ -546,7 +549,7 @@ func runE2E(r *ev.Run, cov ev.Coverage) {
 		if c.op == opReduce || c.op == opFold || c.op == opCogroup {
 			for k := range wantKeys {
 				if len(byKey[k]) == 0 {
-					r.Violate(sig(k, "key-not-emitted"), fmt.Sprintf("%v: key %q of the input is not emitted at all", c, k), detail("key", k))
+					r.Violate(sig(k, ex+"key-not-emitted"), fmt.Sprintf("%v: key %q of the input is not emitted at all", c, k), detail("key", k))
 				}
 			}
 		}
